@@ -690,6 +690,7 @@ def _generic_rules(chk):
     flt = lambda name: bool(scope.search(name.rsplit('.', 1)[-1]))
     _g.rule_group_names(chk, idx_, _Res(idx_), 'C13.groups', 'recognizers_sequence', None, floor=1)
     _g.rule_filter_predicates(chk, idx_, 'C13.filters', 'recognizers_sequence', floor=1)
+    _g.rule_index_guards(chk, idx_, 'C13.index-guards', 'recognizers_sequence', floor=1)
 
 
 _run_before_generic = run
